@@ -56,7 +56,8 @@ CHECKS = {
                 "chunk schedule x bounded pipe x slow reader; UDP: positional faults on the datagrams in flight at close time (drop/"
                 "delay of one of the last data segments, of a middle segment so that the close overtakes it, drop/delay/duplicate of "
                 "the close request) or random loss; the Read-before-wait hook parks the reader 0/2/5 virtual ms; non-trivial = the "
-                "peer observed EOF or an error; plus the stuck-writer family (TCP): small writes until the writer's Write blocks behind "
+                "peer observed EOF or an error; a UDP backlog family (3-5 MiB written and closed at once over a lossless in-order path "
+                "with 100/250 ms delay and a capacity of 500-2000 datagrams/s or unlimited); plus the stuck-writer family (TCP): small writes until the writer's Write blocks behind "
                 "a peer that is not reading (queue, channel and an 1-16 KiB pipe full), Close at that moment, consumer starting 3-8 s "
                 "later; everything written before Close was called must be read before a clean EOF; "
                 "distinct = hash of (transport, closer, fault class, rule hits, write shape, outcome)",
